@@ -555,6 +555,18 @@ func (v *Verifier) evalOn(fr *FuncRef, fc *FuncContract, cs caseSpec, vec, out m
 	bindResults(vars, results)
 	ctx := &SpecCtx{ex: ex, vars: vars, old: ex.entry, pkg: fr.Pkg}
 	verdicts = map[string]string{}
+	if p, ok := out["panic"]; ok {
+		// the real function panicked: a violation unless the contract's ensures_panics condition holds
+		if fc.Panics != nil {
+			pc := &SpecCtx{ex: ex, vars: ex.specVars, old: ex.entry, pkg: fr.Pkg}
+			if pc.term(fc.Panics.Expr).IsTrue() {
+				verdicts["panic-allowed"] = "true"
+				return
+			}
+		}
+		verdicts["panic"] = p
+		return
+	}
 	for _, cl := range append(append([]*Clause{}, fc.Ensures...), fc.Derives...) {
 		func() {
 			defer func() {
@@ -600,9 +612,6 @@ func (v *Verifier) evalOn(fr *FuncRef, fc *FuncContract, cs caseSpec, vec, out m
 		}
 	}
 	_ = frameOK
-	if p, ok := out["panic"]; ok {
-		verdicts["panic"] = p
-	}
 	return
 }
 
@@ -626,10 +635,19 @@ func (v *Verifier) genVectors(o *Oblig, keys []string, n int, seed int64) []map[
 	if o != nil && len(o.Res.Model) > 0 {
 		m := map[string]string{}
 		for _, k := range keys {
-			m[k] = "0"
+			switch {
+			case strings.HasPrefix(k, "bytes("):
+				m[k] = "61626364"
+			case strings.HasPrefix(k, "string("):
+				m[k] = ""
+			default:
+				m[k] = "0"
+			}
 		}
 		for k, val := range o.Res.Model {
-			m[k] = val
+			if _, ok := m[k]; ok && !strings.HasPrefix(k, "bytes(") {
+				m[k] = val
+			}
 		}
 		vecs = append(vecs, m)
 	}
@@ -725,10 +743,89 @@ func (v *Verifier) genVectors(o *Oblig, keys []string, n int, seed int64) []map[
 				}
 			}
 		}
+		// objects that look like projective points (x.E, y.E, z.E limb groups): mostly valid curve points in
+		// assorted representations, so that preconditions of the group-level contracts are met
+		for g := range groups {
+			if !strings.HasSuffix(g, ".x.E") {
+				continue
+			}
+			base := strings.TrimSuffix(g, ".x.E")
+			if _, ok := groups[base+".y.E"]; !ok {
+				continue
+			}
+			if _, ok := groups[base+".z.E"]; !ok || rng.Intn(5) == 0 {
+				continue
+			}
+			setF := func(grp string, val *big.Int) {
+				mont := new(big.Int).Mod(new(big.Int).Mul(val, bigR), P)
+				for i := 0; i < 4; i++ {
+					limb := new(big.Int).And(new(big.Int).Rsh(mont, uint(64*i)), new(big.Int).Sub(pow2(64), bi(1)))
+					m[fmt.Sprintf("%s[%d]", grp, i)] = limb.String()
+				}
+			}
+			var k *big.Int
+			switch rng.Intn(6) {
+			case 0:
+				k = bi(0)
+			case 1:
+				k = bi(int64(1 + rng.Intn(3)))
+			case 2:
+				k = new(big.Int).Sub(N, bi(int64(1+rng.Intn(2))))
+			default:
+				k = new(big.Int).Rand(rng, N)
+			}
+			if len(vecs) > 0 && rng.Intn(4) == 0 && lastK != nil { // related points: P, -P, same point again
+				k = lastK
+				if rng.Intn(2) == 0 {
+					k = new(big.Int).Mod(new(big.Int).Neg(lastK), N)
+				}
+			}
+			lastK = k
+			gx, _ := new(big.Int).SetString("79be667ef9dcbbac55a06295ce870b07029bfcdb2dce28d959f2815b16f81798", 16)
+			gy, _ := new(big.Int).SetString("483ada7726a3c4655da4fbfc0e1108a8fd17b448a68554199c47d08ffb10d4b8", 16)
+			pt := gInf()
+			G := gPt(gx, gy)
+			for i := k.BitLen() - 1; i >= 0; i-- {
+				pt = gAddC(pt, pt)
+				if k.Bit(i) == 1 {
+					pt = gAddC(pt, G)
+				}
+			}
+			x, y, inf := gCoords(pt)
+			var z *big.Int
+			switch rng.Intn(5) {
+			case 0:
+				z = bi(1)
+			case 1:
+				z = modInverse(bigR, P) // Montgomery limbs {1,0,0,0}
+			case 2:
+				z = pow2(64 * (1 + rng.Intn(3)))
+			default:
+				z = new(big.Int).Rand(rng, P)
+				if z.Sign() == 0 {
+					z = bi(1)
+				}
+			}
+			if inf {
+				yy := new(big.Int).Rand(rng, P)
+				if yy.Sign() == 0 || rng.Intn(2) == 0 {
+					yy = bi(1)
+				}
+				setF(base+".x.E", bi(0))
+				setF(base+".y.E", yy)
+				setF(base+".z.E", bi(0))
+			} else {
+				setF(base+".x.E", new(big.Int).Mod(new(big.Int).Mul(x, z), P))
+				setF(base+".y.E", new(big.Int).Mod(new(big.Int).Mul(y, z), P))
+				setF(base+".z.E", z)
+			}
+		}
 		vecs = append(vecs, m)
 	}
 	return vecs
 }
+
+var lastK *big.Int
 
 // tryReplay: confirm a failed obligation on the real code. The model (if any) is tried first, then a directed search.
 func (v *Verifier) tryReplay(prop string, o *Oblig, rep map[string]interface{}, tier string, seed int) (confirmed bool) {
@@ -738,6 +835,9 @@ func (v *Verifier) tryReplay(prop string, o *Oblig, rep map[string]interface{}, 
 			confirmed = false
 		}
 	}()
+	if strings.Contains(o.Name, "crypto.Hash.New#pre:registered") {
+		return v.replayBareMain(rep)
+	}
 	fr := v.prog.Lookup(o.Func)
 	fc := v.specs.Funcs[o.Func]
 	if fr == nil || fc == nil {
@@ -799,7 +899,7 @@ func (v *Verifier) tryReplay(prop string, o *Oblig, rep map[string]interface{}, 
 			tried++
 			var bad []string
 			for name, vd := range verdicts {
-				if vd == "false" || name == "panic" && fc.Panics == nil {
+				if vd == "false" || name == "panic" {
 					bad = append(bad, name)
 				}
 			}
@@ -825,5 +925,49 @@ func (v *Verifier) tryReplay(prop string, o *Oblig, rep map[string]interface{}, 
 		}
 	}
 	rep["directed_search_runs"] = tried
+	return false
+}
+
+// replayBareMain builds and runs a minimal non-test program that imports only the package (C17): in a test binary
+// crypto/sha256 is always linked, so the missing registration can only be observed in a plain main.
+func (v *Verifier) replayBareMain(rep map[string]interface{}) bool {
+	dir, err := os.MkdirTemp("", "verif-c17-")
+	if err != nil {
+		return false
+	}
+	defer os.RemoveAll(dir)
+	os.WriteFile(filepath.Join(dir, "go.mod"), []byte("module c17probe\n\ngo 1.22\n\nrequire "+modPath+" v0.0.0\n\nreplace "+modPath+" => "+v.prog.Root+"\n"), 0o644)
+	os.WriteFile(filepath.Join(dir, "main.go"), []byte(`package main
+
+import (
+	"fmt"
+
+	"`+modPath+`"
+)
+
+func main() {
+	fmt.Println(secp256k1.HashToScalar([]byte("msg"), []byte("a-domain-separation-tag")).Hex())
+	fmt.Println(secp256k1.HashToGroup([]byte("msg"), []byte("a-domain-separation-tag")).Hex())
+	fmt.Println(secp256k1.EncodeToGroup([]byte("msg"), []byte("a-domain-separation-tag")).Hex())
+}
+`), 0o644)
+	for _, tags := range []string{"", "purego"} {
+		args := []string{"run"}
+		if tags != "" {
+			args = append(args, "-tags", tags)
+		}
+		args = append(args, ".")
+		cmd := exec.Command("go", args...)
+		cmd.Dir = dir
+		cmd.Env = append(os.Environ(), "GOFLAGS=-mod=mod", "GOPROXY=off", "GOSUMDB=off", "GOTOOLCHAIN=local")
+		out, err := cmd.CombinedOutput()
+		if err != nil && strings.Contains(string(out), "unavailable") {
+			rep["found_by"] = "bare-main"
+			rep["inputs"] = map[string]string{"program": "package main importing only " + modPath, "build_tags": tags}
+			rep["observed"] = truncate(string(out), 1500)
+			rep["cmd"] = "go run " + strings.Join(args[1:], " ") + "   (module with `replace " + modPath + " => " + v.prog.Root + "`, main calling the three hashing functions)"
+			return true
+		}
+	}
 	return false
 }
